@@ -219,6 +219,10 @@ func (c *treeCtx) atomConstraint(m *ynode, a Atom) {
 		m.put(a.Kind, ystr(c.pathText(*a.Other)))
 	case "datatype":
 		m.put(a.Kind, ystr(compactDt(a.Dt)))
+	case "pattern":
+		m.put(a.Kind, ystr(a.patternText()))
+	case "uniqueValues":
+		m.put(a.Kind, &ynode{kind: "bool", s: fmt.Sprint(a.UArg == nil || *a.UArg)})
 	default:
 		m.put(a.Kind, yint(*a.Arg))
 	}
